@@ -289,13 +289,18 @@ def families(tier='quick', seed=0):
     for nm, cond in (('Q', ('id', 'Q')), ('Q and A', ('and', ('id', 'Q'), ('id', 'A'))), ('A and Q', ('and', ('id', 'A'), ('id', 'Q'))),
                      ('not Q', ('not', ('id', 'Q'))), ('A or B or Q', ('or', ('or', ('id', 'A'), ('id', 'B')), ('id', 'Q'))),
                      ('(Q or A) and B', ('and', ('or', ('id', 'Q'), ('id', 'A')), ('id', 'B'))), ('all(Q)', ('all', 'Q')), ('of(Q,1)', ('of', 'Q', 1)),
-                     ('not (A and Q)', ('not', ('and', ('id', 'A'), ('id', 'Q')))), ('A and not Q', ('and', ('id', 'A'), ('not', ('id', 'Q'))))):
+                     ('not (A and Q)', ('not', ('and', ('id', 'A'), ('id', 'Q')))), ('A and not Q', ('and', ('id', 'A'), ('not', ('id', 'Q')))),
+                     # an undefined identifier to the right of a cast operand
+                     ('int(f)==1 and Q', ('and', ('cmp', '==', ('int', 'f'), ('ci', 1)), ('id', 'Q'))),
+                     ('A and str(f)==str(g) or Q', ('or', ('and', ('id', 'A'), ('cmp', '==', ('str', 'f'), ('str', 'g'))), ('id', 'Q'))),
+                     ('flt(f)>=1.5 and all(Q)', ('and', ('cmp', '>=', ('flt', 'f'), ('cf', 1.5)), ('all', 'Q')))):
         add('undefined-ident', nm, {'idents': ab, 'cond': cond})
     seqX = ('seq', [M((K('f'), S('a'))), M((K('g'), S('b'))), M((K('h'), S('c')))])
     mapX = M((K('f'), S('a')), (K('g'), S('b')), (K('h'), S('c')))
     oneX = M((K('f'), S('a')))
     listX = M((K('f'), L(S('a*'), S('*b'), S('*c*'))))
-    for xn, X in (('seq', seqX), ('map', mapX), ('one', oneX), ('list', listX)):
+    blockX = ('seq', [M((K('f'), S('a')), (K('g'), S('b')))])
+    for xn, X in (('seq', seqX), ('map', mapX), ('one', oneX), ('list', listX), ('seq1block', blockX)):
         add('quant-ident', 'all(%s)' % xn, {'idents': {'X': X}, 'cond': ('all', 'X')})
         for n in (0, 1, 2, 3, 4):
             add('quant-ident', 'of(%s,%d)' % (xn, n), {'idents': {'X': X}, 'cond': ('of', 'X', n)})
@@ -354,6 +359,10 @@ def families(tier='quick', seed=0):
                                                                  M((K('f'), ('i', 1)), (K('g'), S('b')))])}, 'cond': ('id', 'A')})
     add('matrix', 'same field twice str', {'idents': {'A': ('seq', [M((K('f'), S('a*')), (K('f', 'str'), S('*b')), (K('g'), ('i', 1))),
                                                                      M((K('f'), S('c')), (K('g'), ('i', 2)))])}, 'cond': ('id', 'A')})
+    # a row that carries a nested block on a key no other row uses
+    add('matrix', 'row with a nested block', {'idents': {'A': ('seq', [M((K('f'), S('a*')), (K('n'), M((K('g'), S('b'))))),
+                                                                        M((K('f'), S('c')), (K('h'), S('d'))),
+                                                                        M((K('f'), S('e')), (K('h'), S('x')))])}, 'cond': ('id', 'A')})
     nA = M((K('n'), M((K('f'), S('a')))))
     nB = M((K('n'), M((K('g'), S('b')))))
     nC = M((K('h'), S('c')))
@@ -430,7 +439,7 @@ MUST = {'single/"a\'', 'single/i\'a"', 'single/"',
         'list-all/a*,*b', 'list-all/i?a,i?b', 'list-all/ab,b', 'list-of/a*,*b|2', 'list-of/?a,?b|2', 'list-of/ia,ib*|1', 'list-of/a,b|0',
         'single/iA*', 'single/*a*', 'single/"a"', 'regex/i?a', 'number/>1', 'number/<=0.5', 'scalar/int1', 'scalar/null',
         'quant-short/of2:a-only', 'quant-short/of0:a-only', 'quant-short/all:>1,<5', 'quant-ident/of(seq,2)', 'quant-ident/all(list)',
-        'quant-ident/of(list,2)', 'quant-ident/not of(map,1)', 'cast-cond/int(f)>1', 'cast-cond/str(f)==str(g)', 'cast-cond/not flt(f)>=1.5',
+        'quant-ident/of(list,2)', 'quant-ident/not of(map,1)', 'quant-ident/of(seq1block,1)', 'quant-ident/of(seq1block,2)', 'quant-ident/all(seq1block)', 'cast-cond/int(f)>1', 'cast-cond/str(f)==str(g)', 'cast-cond/not flt(f)>=1.5',
         'regex-rewrite/?.*a', 'regex-rewrite/list', 'regex-rewrite/i?.*A', 'modifier/str(f) list', 'modifier/not(f) list', 'list-mixed/1,a',
         'list-mixed/>1,<5', 'list/ab*,*c,id', 'list/abc*,*c,?q', 'list-all/ab*,*c,id', 'list-of/ab*,*c,id|2', 'quant-short/all:nested3', 'quant-short/of2:nested3', 'quant-short/of3:nested3', 'cast-cond/1<int(f)', 'cast-cond/1.5>=flt(f)', 'cast-cond/not 2<=int(f)'}
 
